@@ -75,7 +75,7 @@ func runC08(seed int64, n int, long bool) {
 		if cfg.name == "opendb-one-handle" || cfg.name == "file-wal" {
 			lockErrs += c08KeyChurn(db, path, cfg.name)
 		}
-		if cfg.name == "file-wal" || long && cfg.name == "vfs-memdb" {
+		if cfg.name == "file-wal" || cfg.name == "vfs-memdb" {
 			c08SlowTransaction(db, cfg.name)
 		}
 		db.Close()
@@ -147,6 +147,12 @@ func c08SlowTransaction(db *redka.DB, cfg string) {
 		return
 	}
 	for i, err := range errs {
+		if err != nil && i == 2 && cfg == "vfs-memdb" && isLockErr(err) && listedKnown["kf_memdb_read_times_out_behind_long_transaction"] {
+			// recorded finding: on the in-memory VFS a reader cannot start while a write transaction
+			// is open (no WAL there), and gives up after the busy timeout
+			known["property=C08 on a vfs=memdb database a read fails with 'database is locked' when another goroutine's write transaction stays open longer than the busy timeout (5 s): the in-memory VFS has no WAL, so readers wait for an open writer (kf_memdb_read_times_out_behind_long_transaction)"]++
+			continue
+		}
 		if err != nil {
 			what := []string{"Str().Set", "List().PushBack", "Str().Get"}[i]
 			fail("c08-spurious-error", fmt.Sprintf("%s: %s failed merely because another goroutine's transaction was open for 5.6 s (longer than the busy timeout): %v", cfg, what, err), nil)
@@ -1686,6 +1692,13 @@ func startBgLoad(dir, name string, opts *redka.Options, total int, expired func(
 			return nil
 		})
 		cancel()
+		// ... and once more by age (under load the cancellation above does not always cost the
+		// connection): a connection older than a millisecond is not reused
+		x.DB.RW.SetConnMaxLifetime(time.Millisecond)
+		time.Sleep(5 * time.Millisecond)
+		_ = x.DB.Str().Set("after-replacement", "1")
+		x.DB.RW.SetConnMaxLifetime(0)
+		b.extra++
 	}
 	b.ready = time.Now()
 	if oneHandle && load {
